@@ -18,8 +18,10 @@ const (
 	allowedRTol = 1e-6
 )
 
-func gammaIncReg(x float64, params []float64) float64 {
-	return cephes.Igam(params[0], x) - params[1]
+// gammaIncReg is the objective of the root search in gammaIncRegInv: the
+// relative deviation of Igam(a, x0*u) from y for params = {a, y, x0}.
+func gammaIncReg(u float64, params []float64) float64 {
+	return cephes.Igam(params[0], params[2]*u)/params[1] - 1
 }
 
 // gammaIncRegInv is the inverse of the regularized incomplete Gamma integral. That is, it
@@ -39,20 +41,37 @@ func gammaIncRegInv(a, y float64) float64 {
 		return cephes.IgamI(a, 1-y)
 	}
 
-	lo := 0.0
-	flo := -y
+	// The integrand lies between t^(a-1)*exp(-x) and t^(a-1) on [0, x], so
+	//  x^a*exp(-x)/Γ(a+1) <= Igam(a, x) <= x^a/Γ(a+1)
+	// and the root lies between x0 = (y*Γ(a+1))^(1/a) and x0*exp(root/a).
+	// Searching for u = root/x0 >= 1 makes the tolerances of falsePosition
+	// relative to the root, however small it is.
+	lg, _ := math.Lgamma(a + 1)
+	x0 := math.Exp((math.Log(y) + lg) / a)
+	if x0 == 0 {
+		// Underflow.
+		return 0
+	}
 	hi := cephes.IgamI(a, 0.75)
-	fhi := 0.25 - y
+	uhi := math.Min(hi/x0, math.Exp(hi/a))
 
-	params := []float64{a, y}
+	params := []float64{a, y, x0}
+	flo := gammaIncReg(1, params)
+	if flo >= 0 {
+		return x0
+	}
+	fhi := gammaIncReg(uhi, params)
+	if fhi <= 0 {
+		return x0 * uhi
+	}
 
 	// Also, after we generate a small interval by bisection above, false
 	// position will do a large step from an interval of width ~1e-4 to ~1e-14
 	// in one step (a=10, x=0.05, but similar for other values).
-	result, bestX, _, errEst := falsePosition(lo, hi, flo, fhi, 2*machEp, 2*machEp, 1e-2*a, gammaIncReg, params)
-	if result == fSolveMaxIterations && errEst > allowedATol+allowedRTol*math.Abs(bestX) {
-		bestX = math.NaN()
+	result, bestU, _, errEst := falsePosition(1, uhi, flo, fhi, 2*machEp, 2*machEp, 1e-2*a/x0, gammaIncReg, params)
+	if result == fSolveMaxIterations && errEst > allowedATol+allowedRTol*math.Abs(bestU) {
+		return math.NaN()
 	}
 
-	return bestX
+	return x0 * bestU
 }
